@@ -178,8 +178,8 @@ func runCase(res *results, name string) {
 		caseMesh(res, name, rng, mp)
 	case "hostile":
 		// the over-limit scripts need 256 MB to get through before the victim's own 3 s heartbeat deadline
-		// ends the connection for an unrelated reason; on a starved machine they get three attempts
-		for attempt := 0; attempt < 3; attempt++ {
+		// ends the connection for an unrelated reason; on a starved machine they get a second (thorough: third) attempt
+		for attempt := 0; attempt < core.Pick(2, 3); attempt++ {
 			if caseHostile(res, name, f[1], rng) {
 				break
 			}
